@@ -248,6 +248,11 @@ def make_geometry(rng, nprng, kind, n):
 def write_molecule(path, X, els):
     ext = path.rsplit(".", 1)[1]
     WRITTEN[os.path.abspath(path)] = (np.array(X, dtype=float), 0.005 if ext == "gro" else 0.0005)
+    # a third of the molecules with two or more atoms consist of two residues (gro) / two chains, i.e. two segments (pdb): a complex,
+    # a dimer or a solvated ion is still ONE rigid body for the pseudotrajectory
+    cut = len(X) // 2 if (len(X) >= 2 and (len(X) + int(round(abs(float(X[0][0])) * 1000))) % 3 == 0) else len(X)
+    if cut < len(X) and ext != "xyz":
+        REC.classes[f"molecule with two residues/chains ({ext})"] += 1
     if ext == "xyz":
         with open(path, "w") as f:
             f.write(f"{len(X)}\nharness molecule\n")
@@ -257,12 +262,13 @@ def write_molecule(path, X, els):
         with open(path, "w") as f:
             f.write("harness molecule\n%5d\n" % len(X))
             for i, (e, p) in enumerate(zip(els, X)):
-                f.write("%5d%-5s%5s%5d%8.3f%8.3f%8.3f\n" % (1, "MOL", f"{e}{i + 1}"[:5], i + 1, p[0] / 10, p[1] / 10, p[2] / 10))
+                f.write("%5d%-5s%5s%5d%8.3f%8.3f%8.3f\n" % (1 if i < cut else 2, "MOL" if i < cut else "LIG", f"{e}{i + 1}"[:5], i + 1, p[0] / 10, p[1] / 10, p[2] / 10))
             f.write("   3.00000   3.00000   3.00000\n")
     else:
         with open(path, "w") as f:
             for i, (e, p) in enumerate(zip(els, X)):
-                f.write("ATOM  %5d %-4s MOL A   1    %8.3f%8.3f%8.3f  1.00  0.00          %2s\n" % (i + 1, f"{e}{i + 1}"[:4], p[0], p[1], p[2], e))
+                f.write("ATOM  %5d %-4s %3s %1s%4d    %8.3f%8.3f%8.3f  1.00  0.00          %2s\n" % (
+                    i + 1, f"{e}{i + 1}"[:4], "MOL" if i < cut else "LIG", "A" if i < cut else "B", 1 if i < cut else 2, p[0], p[1], p[2], e))
             f.write("END\n")
 
 
